@@ -438,7 +438,7 @@ func guarded(timeout time.Duration, f func() (string, error)) observation {
 		defer func() {
 			if r := recover(); r != nil {
 				o.Panic = fmt.Sprint(r)
-				o.Site = panicSite(string(debug.Stack()))
+				o.Site = panicSite(o.Panic + "\n" + string(debug.Stack()))
 			}
 			ch <- o
 		}()
